@@ -120,7 +120,13 @@ type Scn struct {
 	Trace   []string // op -> outcome, for replay comparison
 
 	// Ledger of committed source states (masked digests), in order.
-	Ledger     []string
+	Ledger []string
+	// LedgerPre[i]: a wall-clock instant known to be NOT LATER than the commit that produced Ledger[i] (the start of
+	// the operation, or the instant right before the COMMIT for operations that commit from inside): whatever is
+	// replicated of state i is replicated after it.
+	LedgerPre  []time.Time
+	opStart    time.Time
+	commitPre  time.Time
 	ledgerSet  map[string]int
 	LedgerImgs map[string][]byte // optional: digest -> image (only if KeepImages)
 	KeepImages bool
@@ -545,6 +551,12 @@ func (s *Scn) recordLedger() {
 	if len(s.Ledger) > 0 && s.Ledger[len(s.Ledger)-1] == d {
 		return
 	}
+	pre := s.opStart
+	if !s.commitPre.IsZero() {
+		pre = s.commitPre
+	}
+	s.commitPre = time.Time{}
+	s.LedgerPre = append(s.LedgerPre, pre)
 	s.ledgerSet[d] = len(s.Ledger)
 	s.Ledger = append(s.Ledger, d)
 	s.LedgerRoot = append(s.LedgerRoot, s.SeqRoot)
